@@ -12,6 +12,7 @@ EXPLANATION = ('Decided on all MIR paths: a transaction is published to the comm
                'enters the log overlay under one guard after being appended; entries leave a layer only after entering the next one and only '
                'by owner id; readers consult commit overlay -> log overlay -> file with the overlay read lock held; table bytes are written '
                'only by appliers between read_next and end_read; a value fetched by key is returned only after its stored key tail compared equal.')
+EXPLANATION += ' Added: overlay entries are replaced whole; overlay slots are addressed by log_index only; a lookup holds the reindex guard from its first search; index entry copies are purged from all generations; point reads of chained values under one overlay guard (known finding F32); thorough tier: witnesses W1, W2.'
 ASSUMPTIONS = ['linearizability proper and memory ordering of Relaxed atomics are not decided', 'unwind edges ignored']
 TRUSTED = ['rustc MIR construction (nightly)', 'pdb-facts driver', 'rule engine /verif/rules', 'anchor tables in props/shared.py, props/C05.py']
 
